@@ -67,7 +67,8 @@ fn value_for(key: u64, id: u32, mv: u8) -> EntryView {
         kind: (id % 3) as u8,
         performed_move: Move::by_moving(PieceIndex::new(Color::White, Piece::Pawn), from, to),
         depth: id as usize,
-        max_depth: (key % 65521) as usize + id as usize,
+        // the remaining depth (max_depth - depth) varies from insert to insert, also under one key
+        max_depth: id as usize + ((id as u64).wrapping_mul(0x9e37_79b9).wrapping_add(key) >> 3) as usize % 7,
         evaluation: id as i32,
     }
 }
@@ -606,7 +607,11 @@ pub fn generate(rng: &mut Rng64, thorough: bool) -> TableCase {
     }
     let mut threads = Vec::new();
     for _ in 0..nthreads {
-        let nops = if nthreads == 1 { 4 + rng.below(28) } else { 1 + rng.below(if nthreads > 8 { 3 } else { 6 }) };
+        let nops = if nthreads == 1 {
+            4 + rng.below(if thorough { 60 } else { 28 })
+        } else {
+            1 + rng.below(if nthreads > 8 { 3 } else if thorough { 9 } else { 6 })
+        };
         let mut ops = Vec::new();
         for _ in 0..nops {
             let r = rng.below(100);
